@@ -96,3 +96,14 @@ CASES += [
     {"name": "band selection written as a membership test", "kind": "twin", "edits": [
         ("quantarhei/builders/aggregate_base.py", "        if (abs(b1-b2) != 1) and (abs(b1-b2) != 2):\n            return -1", "        if not (abs(b1-b2) == 1 or abs(b1-b2) == 2):\n            return -1", 1)]},
 ]
+
+_HO10 = "quantarhei/qm/oscillators/ho.py"
+CASES += [
+    {"name": "look-up of a shift with a tolerance (seeded change of round 8)", "kind": "mutant", "rule": "C10-J", "edits": [
+        (_HO10, "        if self._shifts.count(shift) > 0:\n", "        if len(self._shifts) > 0 and numpy.any(numpy.isclose(self._shifts, shift)):\n", 1),
+        (_HO10, "        return self._shifts.index(shift)\n", "        return int(numpy.nonzero(numpy.isclose(self._shifts, shift))[0][0])\n", 1)]},
+    {"name": "look-up of a shift within an absolute distance", "kind": "mutant", "rule": "C10-J", "edits": [
+        (_HO10, "        if self._shifts.count(shift) > 0:\n", "        if any(abs(s_ - shift) < 1.0e-6 for s_ in self._shifts):\n", 1)]},
+    {"name": "look-up of a shift with `in`", "kind": "twin", "edits": [
+        (_HO10, "        if self._shifts.count(shift) > 0:\n", "        if shift in self._shifts:\n", 1)]},
+]
